@@ -52,6 +52,9 @@ def run(prop, tier, seed, t0):
 
     agg = runner.Agg(prop, plan["prefixes"])
     timeout = 300 if tier == "quick" else 3600
+    # wall-clock budget of the exploration part (bundles that have not STARTED when it is spent are skipped and reported)
+    wall_budget = float(os.environ.get("VERIF_WALL_SECS", "1500" if tier == "quick" else "3000"))
+    deadline = t0 + wall_budget
     groups = {}
     for b in plan["bundles"]:
         groups.setdefault(b.get("_engine", "symx"), []).append(b)
@@ -64,7 +67,7 @@ def run(prop, tier, seed, t0):
                 last[0] = time.time()
                 log("  .. %d/%d bundles (%s), %.0fs" % (i, n, eng, time.time() - t0))
 
-        for (bundle, recs, err, secs) in runner.run_all(bins[eng], bundles, timeout, progress):
+        for (bundle, recs, err, secs) in runner.run_all(bins[eng], bundles, timeout, progress, deadline):
             agg.add(bundle, recs, err, secs, plan["nontrivial"][1])
             results_by_engine.setdefault(eng, []).append((bundle, recs, err, secs))
 
@@ -182,6 +185,9 @@ def run(prop, tier, seed, t0):
         subcases=agg.subcases,
         subcases_decided_exhaustively=agg.decided,
         subcases_incomplete=len(agg.incomplete),
+        bundles_planned=len(plan["bundles"]),
+        bundles_skipped_wall_budget=agg.skipped,
+        wall_budget_secs=wall_budget,
         incomplete_examples=agg.incomplete[:5],
         exhaustive=False,
         paths=agg.tot["paths"],
@@ -217,6 +223,8 @@ def run(prop, tier, seed, t0):
                        samples=hs, engine=kani_res["evidence"]["engine"], explanation="SAT-based bounded model checking of the compiled (unmodified) code; loop-free kernels, so the bound is the full input range",
                        checker_cmd="cargo kani --harness <name> (in a scratch copy of /verif/kani with a path dependency on /repo/ddo)", trusted_base=["rustc/Kani MIR->GOTO translation", "CBMC 6.11 + CaDiCaL"])
     write_evidence(prop, tier, seed, "model_checking", cov, cases.ASSUME_E2 if plan["bundles"] else cases.ASSUME_E1, wall, reported)
+    if agg.skipped:
+        log("[%s] wall budget of %.0fs spent: %d of %d bundles were not started (reported in evidence as bundles_skipped_wall_budget)" % (prop, wall_budget, agg.skipped, len(plan["bundles"])))
     log("[%s] sub-cases=%d decided=%d incomplete=%d paths=%d queries=%d (unsat %d) obligations=%d (this property: %d) violations=%d wall=%.0fs" % (prop, agg.subcases, agg.decided, len(agg.incomplete), agg.tot["paths"], agg.tot["queries"], agg.tot["unsat"], agg.tot["obligations"], agg.prop_obligations, reported, wall))
     if exit_code == 1:
         return 1
